@@ -120,7 +120,7 @@ func drive() {
 	}
 
 	// phase 1: span invariants
-	d.runSpanCases(d.spanCases())
+	d.spanCases()
 
 	// phase 2: error locations
 	d.errloc()
@@ -204,9 +204,17 @@ func (d *driver) corpusFiles() []string {
 	return files
 }
 
-func (d *driver) spanCases() []spanCase {
+// spanCases generates the span inputs family by family and runs them in batches (so that
+// the sources of a thorough run never sit in memory all at once).
+func (d *driver) spanCases() {
 	e := d.e
 	var cases []spanCase
+	flush := func(force bool) {
+		if len(cases) >= 20000 || (force && len(cases) > 0) {
+			d.runSpanCases(cases)
+			cases = nil
+		}
+	}
 	files := d.corpusFiles()
 	type cf struct{ rel, src string }
 	var corpus []cf
@@ -225,7 +233,8 @@ func (d *driver) spanCases() []spanCase {
 
 	// corpus files with injections at seeded token boundaries / CRLF conversion
 	r := e.Rand("span-inject")
-	nInject := e.Pick(4000, 40000)
+	flush(true)
+	nInject := e.Pick(4000, 100000)
 	for i := 0; i < nInject && len(corpus) > 0; i++ {
 		c := corpus[r.Intn(len(corpus))]
 		mode := "script"
@@ -234,11 +243,13 @@ func (d *driver) spanCases() []spanCase {
 		}
 		src, what := injectInto(r, c.src, mode, d.q)
 		cases = append(cases, spanCase{ID: fmt.Sprintf("inject/%d/%s/%s/%s", i, c.rel, mode, what), Family: "corpus-inject", Mode: mode, Src: []byte(src)})
+		flush(false)
 	}
+	flush(true)
 
 	// generated programs (fault-free), in the mode they are written for and in the other one
 	r = e.Rand("span-gen")
-	nGen := e.Pick(5000, 40000)
+	nGen := e.Pick(5000, 100000)
 	for i := 0; i < nGen; i++ {
 		p := genProgram(r, false, d.q)
 		src, _ := p.render()
@@ -254,11 +265,13 @@ func (d *driver) spanCases() []spanCase {
 			}
 		}
 		cases = append(cases, spanCase{ID: fmt.Sprintf("gen/%d/%s", i, mode), Family: "gen", Mode: mode, Src: []byte(src)})
+		flush(false)
 	}
+	flush(true)
 
 	// lexical soup
 	r = e.Rand("span-soup")
-	nSoup := e.Pick(3000, 20000)
+	nSoup := e.Pick(3000, 60000)
 	for i := 0; i < nSoup; i++ {
 		s := genSoup(r, d.q)
 		mode := "script"
@@ -270,8 +283,9 @@ func (d *driver) spanCases() []spanCase {
 			}
 		}
 		cases = append(cases, spanCase{ID: fmt.Sprintf("soup/%d/%s", i, mode), Family: "soup", Mode: mode, Src: []byte(s)})
+		flush(false)
 	}
-	return cases
+	flush(true)
 }
 
 // injectInto inserts 1–4 snippets at token starts of src (found by a first lex of src) or
@@ -443,7 +457,7 @@ func (d *driver) runSpanCases(cases []spanCase) {
 				cause = sr.Causes[i]
 			}
 			key := fmt.Sprintf("span/%s/%s/%s", cause, v.Rule, c.Mode)
-			what := fmt.Sprintf("%s on input %s (lexer mode %s): %s", v.Rule, c.ID, c.Mode, v.What)
+			what := fmt.Sprintf("%s on input %s (lexer mode %s): %s [reproduce: .build/c18 dump <replay file> %s]", v.Rule, c.ID, c.Mode, v.What, c.Mode)
 			ext := "zy"
 			if c.Mode == "template" {
 				ext = "php"
@@ -574,7 +588,7 @@ func (d *driver) errloc() {
 		e.Inconclusive(fmt.Sprintf("only %d of %d fault kinds produce a diagnostic in a plain program", len(enabled), len(faultKinds)))
 	}
 	r := e.Rand("errloc")
-	n := e.Pick(1500, 10000)
+	n := e.Pick(1500, 30000)
 	var cases []*locCase
 	for i := 0; i < n; i++ {
 		p := genProgram(r, true, d.q)
